@@ -451,8 +451,19 @@ def t_handbuilt(facts, res, tier):
     res.note("%d AsmInstruction literals / constructor calls outside asm()" % n)
 
 
+def _accumulation(a):
+    """text of what the statement adds to its left-hand side: `acc += x` or `acc = acc.saturating_add(x)` / checked_add; else None"""
+    if a.get("k") == "assignop" and a["op"] == "+":
+        return expr_text(a["r"])
+    if a.get("k") == "assign" and a["r"].get("k") == "mcall" and a["r"]["method"] in ("saturating_add", "checked_add") and len(a["r"]["args"]) == 1 \
+            and expr_text(a["r"]["recv"]) == expr_text(a["l"]):
+        t = expr_text(a["r"]["args"][0])
+        return t[1:] if t.startswith("*") else t
+    return None
+
+
 def asmline_contributions(facts, fn):
-    """For each `match` over AsmLine values whose arms accumulate with `+=`, map variant -> contribution text."""
+    """For each `match` over AsmLine values whose arms accumulate (`acc += x`, `acc = acc.saturating_add(x)`), map variant -> contribution text."""
     out = []
     variants = facts.enum_variants("AsmLine")
     for m in walk(fn["body"]):
@@ -473,10 +484,11 @@ def asmline_contributions(facts, fn):
                     binds = [pat_text(e) for e in inner.get("elems", [])]
                     contrib = []
                     for a in walk(arm["body"]):
-                        if a.get("k") == "assignop" and a["op"] == "+":
+                        add = _accumulation(a)
+                        if add is not None:
                             relevant = True
                             accs.add(expr_text(a["l"]))
-                            t = expr_text(a["r"])
+                            t = add
                             for i, b in enumerate(binds):
                                 if t == b:
                                     t = "payload%d" % i
@@ -486,8 +498,8 @@ def asmline_contributions(facts, fn):
                     table[var] = "+".join(sorted(contrib)) if contrib else "0"
                 elif inner.get("k") == "wild" or (p.get("k") == "path" and p["segs"][-1] == "None"):
                     for a in walk(arm["body"]):
-                        if a.get("k") == "assignop" and a["op"] == "+":
-                            table["_"] = expr_text(a["r"])
+                        if _accumulation(a) is not None:
+                            table["_"] = _accumulation(a)
         if relevant:
             out.append((m, table, accs))
     return out
